@@ -183,43 +183,4 @@ theorem collectHints_spans (c : Str) (a d : Sched) (h : collectHints c = .ok (a,
         · exact hw.rd e (mem_entries_getResult _ e he)
   · cases h
 
-/-! ### A hygienic decorated program: the centrifugated text has as many lines as the stored source -/
-
-theorem centrifuged_length (ws : List Str) (cs : List CodeLine) : (centrifuged ws cs).length = cs.length := by
-  have := congrArg List.length (centrifuged_plain ws cs)
-  simpa [plainLines] using this
-
-theorem decorated_source_and_lines (d : Decorated) (hy : Hyg d) :
-    let c := joinNL ((centrifuged (sortDedup (wholeLabels d)) (codeLines d)).map renderCode)
-    centrifugate (decorate d) = .ok c ∧ removeHints c = joinNL (base d) ∧
-      lineCount c = (codeLines d).length ∧ lineCount (joinNL (base d)) = (codeLines d).length := by
-  intro c
-  have hws : ∀ L ∈ sortDedup (wholeLabels d), Clean L := fun L hL => hy.whole L ((mem_sortDedup L _).mp hL)
-  have hfirst : ∀ c, (codeLines d).head? = some c → c.code ≠ [] := by
-    intro c hc; obtain ⟨x, t, hxt, _⟩ := hy.first c hc; simp [hxt]
-  have ok' := okCode_centrifuged _ hws _ hy.ok hfirst hy.last
-  have hlen := centrifuged_length (sortDedup (wholeLabels d)) (codeLines d)
-  have hne : codeLines d ≠ [] := hy.ne
-  refine ⟨centrifugate_decorate d hy, ?_, ?_, ?_⟩
-  · show removeHints (joinNL _) = _
-    rw [removeHints, subHints_lines _ ok', centrifuged_plain]
-    exact stripPy_plain (codeLines d) hy.ne hy.first
-      (fun c hc => ⟨hy.last c hc, (hy.ok c (List.mem_of_getLast? hc)).notrail⟩)
-  · show lineCount (joinNL _) = _
-    rw [lineCount, splitNL_joinNL _ (by
-        intro e
-        have : (centrifuged (sortDedup (wholeLabels d)) (codeLines d)).length = 0 := by
-          simpa using congrArg List.length e
-        rw [hlen] at this
-        exact hne (List.length_eq_zero_iff.mp this))
-      (by
-        intro l hl; simp only [List.mem_map] at hl; obtain ⟨x, hx, rfl⟩ := hl
-        exact renderCode_noNL x (ok' x hx))]
-    simp [hlen]
-  · rw [lineCount, base, splitNL_joinNL _ (by simpa using hne)
-      (by
-        intro l hl; simp only [List.mem_map] at hl; obtain ⟨x, hx, rfl⟩ := hl
-        exact (hy.ok x hx).nonl)]
-    simp
-
 end Paroxy.Hints
